@@ -199,6 +199,11 @@ Error ConstPool::add(const void* data, size_t size, Out<size_t> offset_out) noex
       }
 
       node = ConstPool::Tree::new_node_t(_arena, data_ptr, smaller_size, offset + (i * smaller_size), true);
+      if (ASMJIT_UNLIKELY(!node)) {
+        // Shared constants are only an optimization - the constant itself has been added, so stop sharing.
+        smaller_size = 0;
+        break;
+      }
       _tree[tree_index].insert(node);
     }
   }
